@@ -7,7 +7,7 @@ Spec:  spec/AtomicWriteOps.tla (contract ObsClause, op order), spec/AtomicWrite.
 S->C:  every plan (sequence of deviations from success) TLC enumerates is replayed by fault injection on the
        real _safe_create_replace_file, on lint + LintingResult.persist_changes (persist_tree) and on
        lint_paths(fix=True, apply_fixes=True) in a forked child (exceptions = patched os/tempfile/shutil
-       functions raising OSError, death = os._exit); the directory is projected afterwards (names, body
+       functions raising OSError, KeyboardInterrupt or SystemExit, death = os._exit); the directory is projected afterwards (names, body
        classes, modes) and the observation is validated by TLC against the contract (AtomicWriteObs).
        The model's own prediction for the plan is compared too (DRIFT only).
 C->S:  `strace -f -e trace=file,desc` of real `python -m sqlfluff fix` subprocesses (with and without
@@ -38,32 +38,36 @@ def fs(*xs):
     return frozenset(xs)
 
 
+K3 = {"os", "kbd", "exit"}      # raised exception classes: OSError, KeyboardInterrupt, SystemExit
 SCOPES = {
     # (constants of the emission run, what, levels the plans are replayed on).  Every plan is replayed on
     # _safe_create_replace_file; the entry points above it (which add the persist_tree gate, the suffix, the file
     # sequence and exception propagation, and cost a lint per replay) get the scopes with one raised fault.
     "quick": [
-        (dict(NFiles=1, SkipChoices={fs()}, SuffixChoices={False, True}, MaxRaise=2, AllowDie=True),
-         "one file, up to two raised faults, death anywhere, with and without suffix", ("safe",)),
-        (dict(NFiles=1, SkipChoices={fs()}, SuffixChoices={False, True}, MaxRaise=1, AllowDie=True),
-         "one file, one raised fault, death anywhere", ("persist",)),
-        (dict(NFiles=2, SkipChoices={fs(), fs(1)}, SuffixChoices={False, True}, MaxRaise=1, AllowDie=True),
-         "two files (second may follow a skipped first), one raised fault, death anywhere", ("safe", "paths")),
+        (dict(NFiles=1, SkipChoices={fs()}, SuffixChoices={False, True}, MaxRaise=2, AllowDie=True, ExcKinds=K3),
+         "one file, up to two raised faults (OSError / KeyboardInterrupt / SystemExit), death anywhere, with and "
+         "without suffix", ("safe",)),
+        (dict(NFiles=1, SkipChoices={fs()}, SuffixChoices={False, True}, MaxRaise=1, AllowDie=True, ExcKinds=K3),
+         "one file, one raised fault of any class, death anywhere", ("persist",)),
+        (dict(NFiles=2, SkipChoices={fs(), fs(1)}, SuffixChoices={False, True}, MaxRaise=1, AllowDie=True,
+              ExcKinds={"os", "kbd"}),
+         "two files (second may follow a skipped first), one raised fault (OSError / KeyboardInterrupt), death anywhere",
+         ("safe", "paths")),
     ],
     "thorough": [
-        (dict(NFiles=1, SkipChoices={fs()}, SuffixChoices={False, True}, MaxRaise=3, AllowDie=True),
+        (dict(NFiles=1, SkipChoices={fs()}, SuffixChoices={False, True}, MaxRaise=3, AllowDie=True, ExcKinds=K3),
          "one file, up to three raised faults, death anywhere", ("safe",)),
-        (dict(NFiles=1, SkipChoices={fs()}, SuffixChoices={False, True}, MaxRaise=2, AllowDie=True),
+        (dict(NFiles=1, SkipChoices={fs()}, SuffixChoices={False, True}, MaxRaise=2, AllowDie=True, ExcKinds=K3),
          "one file, up to two raised faults, death anywhere", ("persist", "paths")),
-        (dict(NFiles=2, SkipChoices={fs(), fs(1), fs(2)}, SuffixChoices={False, True}, MaxRaise=2, AllowDie=True),
+        (dict(NFiles=2, SkipChoices={fs(), fs(1), fs(2)}, SuffixChoices={False, True}, MaxRaise=2, AllowDie=True, ExcKinds=K3),
          "two files, any one skipped, two raised faults, death anywhere", ("safe",)),
-        (dict(NFiles=2, SkipChoices={fs(), fs(1), fs(2)}, SuffixChoices={False, True}, MaxRaise=1, AllowDie=True),
+        (dict(NFiles=2, SkipChoices={fs(), fs(1), fs(2)}, SuffixChoices={False, True}, MaxRaise=1, AllowDie=True, ExcKinds=K3),
          "two files, any one skipped, one raised fault, death anywhere", ("persist", "paths")),
-        (dict(NFiles=3, SkipChoices={fs(), fs(2)}, SuffixChoices={False, True}, MaxRaise=1, AllowDie=True),
+        (dict(NFiles=3, SkipChoices={fs(), fs(2)}, SuffixChoices={False, True}, MaxRaise=1, AllowDie=True, ExcKinds=K3),
          "three files, one raised fault, death anywhere", ("safe", "paths")),
     ],
 }
-MODEL = dict(NFiles=2, SkipChoices={fs(), fs(1), fs(2)}, SuffixChoices={False, True}, MaxRaise=2, AllowDie=True)
+MODEL = dict(NFiles=2, SkipChoices={fs(), fs(1), fs(2)}, SuffixChoices={False, True}, MaxRaise=2, AllowDie=True, ExcKinds=K3)
 
 
 def work_dir():
@@ -98,7 +102,8 @@ def signature(clause, case, out):
                 breaker = nxt[0]
     return {"clause": clause, "level": case["level"], "suffix": case["suffix"],
             "fallback": any(op == "rename" and what == "raise" for _i, op, what in plan),
-            "breaker": breaker, "faults": plan_str(plan)}
+            "breaker": breaker, "exc": ",".join(sorted({w.partition(":")[2] or "os" for _i, _o, w in plan if w.startswith("raise")})),
+            "faults": plan_str(plan)}
 
 
 def cases_from(records, nfiles, levels, tag):
